@@ -7,6 +7,7 @@ exactly what Droop.main catches.
 case = {'case': election case, 'ks': [floats in (0,1)] drawn crash points beyond the start-up prefix,
         'order': permutation of the three renderers, 'all': True to enumerate every crash point}
 """
+import io
 import json
 import os
 import sys
@@ -77,7 +78,13 @@ class Tracer:
 def traced_count(case, k, marks=None):
     "build the election, count it with an interrupt at line event k (None = never); -> (E, interrupted, tracer)"
     text, profile, E = drive.build(case)
-    E.prog = drive.budget_prog(E, [0])     # deterministic budget for rational Meek (raises drive.BudgetExceeded)
+    budget = drive.budget_prog(E, [0])     # deterministic budget for rational Meek (raises drive.BudgetExceeded)
+    console = E.prog                       # droop's own progress output: its lines are crash points like any other
+
+    def prog(msg):
+        budget(msg)
+        console(msg)
+    E.prog = prog
     tr = Tracer(k)
     if marks is not None:
         # record the line-event count at which each action is appended (only for the uninterrupted reference run)
@@ -88,6 +95,7 @@ def traced_count(case, k, marks=None):
             marks.append((tr.n, tag, E.round))
         E.erecord.action = action
     intr = False
+    stdout, sys.stdout = sys.stdout, io.StringIO()      # (the progress dots)
     sys.settrace(tr.glob)
     try:
         try:
@@ -96,6 +104,7 @@ def traced_count(case, k, marks=None):
             intr = True
     finally:
         sys.settrace(None)
+        sys.stdout = stdout
     return E, intr, tr
 
 
@@ -127,13 +136,14 @@ def cli_interrupted(case, k):
             f.write(model.render(case))
         opts = dict(case.get('options') or {})
         opts.update(path=path, rule=case['rule'], dump=True, json=True)
-        Election.prog = staticmethod(lambda msg: None)
         tr = CliTracer(k)
+        stdout, sys.stdout = sys.stdout, io.StringIO()      # droop's own prog() runs, its dots go nowhere
         sys.settrace(tr.glob)
         try:
             out = Droop.main(opts)
         finally:
             sys.settrace(None)
+            sys.stdout = stdout
         return out, tr
     finally:
         Election.prog = saved
